@@ -888,7 +888,7 @@ def check_staking(tier, ev):
     # committed or rolled back, with payouts at block updates and rewards minted through the router
     if ev.pid in ("C14", "C15", "C16"):
         mc_and_replay(ev, "mc/MC_Chain.tla", f"mc/MC_Chain_stake_{tier}.cfg", "chain", 3400, [], coverage=False,
-                      env={"MTV_FOCUS": "post.sk,post.unbonding,post.bank,reads.sk,reads.bank,ok,panic,events,rlog", "MTV_ALWAYS": ""},
+                      env={"MTV_FOCUS": "post.sk,post.unbonding,post.bank,reads.sk,reads.bank,ok,panic,rlog,views", "MTV_ALWAYS": ""},
                       need_features=["staking_message", "pending_unbonding_after", "nonzero_reward_visible", "payout_at_block_update",
                                      "staking_message_from_contract_ok", "slash_composed", "slash_with_pending_unbonding_composed"])
         # impl -> spec: random mixed histories (contracts, bank, staking, block updates) on the real keepers, validated by TLC
